@@ -13,7 +13,7 @@
              'unreachable from the root)',
              'retention outside the node tree (reader-internal buffers) is not in the model: it is checked on the implementation only, '
              'by a live-heap oracle (runtime.GC + MemStats.HeapAlloc, minimum of three samples, every 1/16 of a 4*10^4 (quick) / '
-             '3*10^5 (thorough) record run after a warm-up; last third vs first third, slack 512 KB / 2 MB; observed noise on the '
+             '3*10^5 (thorough) record run after a warm-up; last third vs first third, slack 256 KB / 2 MB; goroutine stack memory (MemStats.StackInuse) is sampled from a second goroutine while Reads are in progress, slack 4 MB, with one unbroken run of 10^5 filter-rejected records per format; observed noise on the '
              'unchanged tree: under 10 KB)'],
  'assumptions': ['no_separator_text (XML): no character data between the records (F7 is the known finding '
                  'outside this guard)',
